@@ -46,7 +46,13 @@ def multipass_execute(ck) -> FunctionInfo:
 
 def mode_behaviour(ck, mode: str, fn: Optional[FunctionInfo] = None) -> ModeBehaviour:
     fn = fn or multipass_execute(ck)
-    paths = explore(ck, fn, heap={MODE_ATTR: C(mode)}, unroll=(0, 1))
+    keep = {"saveAdditionalOutput", "getSecondPassAlignmentRows", "createAdditionalOutputFile", "execute"}
+    classes = set(ck.ctx.p.mro(fn.cls)) if fn.cls is not None else set()
+
+    def follow(callee):
+        # helper methods of the coordinator that a refactoring may have extracted from execute()
+        return callee.cls in classes and callee.name not in keep and not callee.is_property
+    paths = explore(ck, fn, heap={MODE_ATTR: C(mode)}, unroll=(0, 1), follow=follow)
     mb = ModeBehaviour(mode, [], [], [], len(paths))
     for pa in paths:
         if pa.outcome == "return":
